@@ -209,6 +209,16 @@ func (m *Model) Compare(dir int, rd *Reader, blocked bool) (sig, desc string) {
 	case !blocked && m.dead[dir] != realCls:
 		return "error-differs", fmt.Sprintf("model reports %q, implementation %q (%v) after %d bytes", m.dead[dir], realCls, rd.Err, len(rd.Got))
 	}
+	// decoder state (C05 anchors: nonce counter advanced only by a successful open; invalid-length flag)
+	if ctr, _, rinv, ok := m.pr.DecoderState(dir); ok {
+		f := strings.Fields(m.call("state %s", sessName(dir)))
+		if m.fault != "" || len(f) < 3 {
+			return "model-driver-fault", m.fault + " (state)"
+		}
+		if f[0] != fmt.Sprint(ctr-1) || (f[2] == "1") != rinv {
+			return "decoder-state-differs", fmt.Sprintf("model: %s frames accepted, invalid-length flag %s; implementation: nonce counter %d (= %d frames accepted), nextLengthInvalid %v", f[0], f[2], ctr, ctr-1, rinv)
+		}
+	}
 	return "", ""
 }
 
